@@ -42,17 +42,17 @@ CHECKS = {
         note='Domain restrictions listed in the evidence assumptions (zero-denominator convention, dyadic grids for histograms, retrieval rows non-empty). Three known findings recorded.'),
     'C17': dict(
         category='exploration', design_ref='DESIGN.md §4 C17',
-        technique='runtime monitor with a reference model: generated lazy expression trees are materialised (also after a pickle round trip) against an eager twin with call counters; operation histories exceeding the cache bounds are checked step by step against a 15-line reference LRU (hits, misses, eviction order, identity, missing-object errors) and LruCache invariants',
+        technique='runtime monitor with a reference model: generated lazy expression trees are materialised (also after a pickle round trip) against an eager twin with call counters; operation histories exceeding the cache bounds are checked step by step against a 15-line reference LRU (hits, misses, eviction order, identity, missing-object errors) and LruCache invariants; concurrent cached calls and LRU insert / evict races run as 2-3 controlled threads under the deterministic scheduler (exact interleaving witnesses); identity-hashed callables and arguments are sent through pickle round trips',
         text='About 2k expression trees and 100 long make/clear histories per quick run (430k cases thorough).',
         note='Expression identity follows Python equality/hash as for functools.lru_cache; single-threaded histories.'),
     'C18': dict(
         category='exploration', design_ref='DESIGN.md §4 C18',
-        technique='runtime monitor with a reference model: sequences of copying set/update operations on generated trees are compared with an independent persistent-update model; deep snapshots and node identities of the originals are compared before/after; independent DFS and recursive map for items/apply',
+        technique='runtime monitor with a reference model: sequences of copying set/update operations on generated trees are compared with an independent persistent-update model; deep snapshots and node identities of the originals are compared before/after; independent DFS and recursive map for items/apply; leaf roots, non-list sequence leaves and key_paths views are checked for listing / read-back / apply; a set outside the documented domain that is accepted must read back its value',
         text='16k operation sequences per quick run (480k thorough) with about 3M snapshot checks.',
         note='Only the documented set/get forms are generated (see assumptions).'),
     'C19': dict(
         category='exploration', design_ref='DESIGN.md §4 C19',
-        technique='runtime monitor on an exhaustively enumerated space: every size sequence of length <= 5 over sizes 0-6 x targets 1-7 x 1-3 columns x container kinds is re-batched by the real rebatched_args (and through apply/select/batch pipelines) and checked for row conservation, order, alignment, batch sizes and tail-only padding using unique cell ids',
+        technique='runtime monitor on an exhaustively enumerated space: every size sequence of length <= 5 over sizes 0-6 x targets 1-7 x 1-3 columns x container kinds is re-batched by the real rebatched_args (and through apply/select/batch pipelines) and checked for row conservation, order, alignment, batch sizes and tail-only padding using unique cell ids; ragged input may never be emitted misaligned; multi-output functions into one key, threaded batch() with barriers, and iterate_fn(multithread) are compared with the plain-Python result',
         text='1.86M cases per quick run (exhaustive small space), 21M thorough incl. random long streams.',
         note='The stream is passed as an iterator; columns of a batch have equal length.'),
     'C01': dict(
